@@ -56,6 +56,29 @@ def exec_events(recorded: List[Dict]) -> List[Dict]:
     return out
 
 
+def apalache_pool(workdir: str):
+    """thorough tier: the four obligations of the inductive invariant of the ordered parallel map (spec/apalache/
+    Apa_Pool.tla, a typed restatement of Pool.tla with per-task shipping): Init => IndInv, IndInv /\\ Next => IndInv',
+    IndInv => Inv_C09, IndInv => Inv_C10 - for all states within the generator bound, reachable or not"""
+    import subprocess
+    out = {}
+    spec = os.path.join(os.path.dirname(os.path.dirname(os.path.abspath(__file__))), "..", "spec", "apalache")
+    for name, args in (("Init=>IndInv", ["--init=Init", "--inv=IndInv", "--length=0"]),
+                       ("IndInv/\\Next=>IndInv'", ["--init=IndInit", "--inv=IndInv", "--length=1"]),
+                       ("IndInv=>Inv_C09", ["--init=IndInit", "--inv=Inv_C09", "--length=0"]),
+                       ("IndInv=>Inv_C10", ["--init=IndInit", "--inv=Inv_C10", "--length=0"])):
+        try:
+            p = subprocess.run(["apalache-mc", "check"] + args + ["--out-dir=" + os.path.join(workdir, "apalache"), "Apa_Pool.tla"],
+                               cwd=os.path.abspath(spec), stdout=subprocess.PIPE, stderr=subprocess.STDOUT, text=True, timeout=900)
+            ok = "The outcome is: NoError" in p.stdout
+            out[name] = "NoError" if ok else ("Error" if "The outcome is: Error" in p.stdout else "not run: " + p.stdout[-200:])
+        except Exception as e:      # the tool is an extra: its absence is reported, not an error of the check
+            out[name] = "not run: " + repr(e)[:200]
+    if any(v == "Error" for v in out.values()):
+        raise tlc.MachineryError(f"Apalache: an obligation of the inductive invariant of Pool fails: {out}")
+    return out
+
+
 def run(ctx: Ctx):
     quick = ctx.tier == "quick"
     rng = random.Random(ctx.seed * 8191 + 9)
@@ -77,6 +100,8 @@ def run(ctx: Ctx):
         raise tlc.MachineryError("MC_Pool_source: source tags are schedule independent under per_worker shipping?")
     ctx.notes["named_deviation_source_tags"] = "Inv_SourceIndependent violated under Ship=per_worker, as expected"
     ctx.exhaustive = True
+    if not quick:
+        ctx.notes["apalache_inductive_invariant"] = apalache_pool(ctx.workdir)
     schedules = batch.export_by_print("MC_Pool", "Export_Pool.cfg", ctx.workdir, workers=4)
     ctx.notes["tlc_generated_schedules"] = len(schedules)
 
